@@ -516,3 +516,28 @@ seed("n-c06-ck-inline", "C06", SP, """        if self.rows <= row { panic!( "Spa
         if self.cols <= col { panic!( "Sparse matrix get: col range error." ); }""", """        if self.cols <= col { panic!( "Sparse matrix get: col range error." ); }
         if self.rows <= row { panic!( "Sparse matrix get: row range error." ); }""", "SILENT", "reordering independent guards")
 seed("n-c04-mm-let", "C04", BD, "        let tmploop = std::cmp::min( m1 + m2 + 1, n - k );\n            for j in std::cmp::max( 0, - k )..tmploop {", "        let lo = std::cmp::max( 0, - k );\n            let tmploop = std::cmp::min( n - k, m1 + m2 + 1 );\n            for j in lo..tmploop {", "SILENT", "let + commuted min")
+
+# ---------------------------------------------------------------- C10
+PM = "src/polynomial/mod.rs"
+seed("c10-quadratic-unguarded", "C10", PM, "roots[1] = if q == Cmplx::zero() { Cmplx::zero() } else { c / q };", "roots[1] = c / q;", "divisors/quadratic_solve", "the original defect")
+seed("c10-zeros-degree-minus-1", "C10", PM, "let mut poly_roots = Vector::<Cmplx>::zeros( degree );", "let mut poly_roots = Vector::<Cmplx>::zeros( degree - 1 );", "count")
+seed("c10-deflation-skips-0", "C10", PM, "            for j in (0..degree).rev() {\n                let mut x = Cmplx::zero();", "            for j in (1..degree).rev() {\n                let mut x = Cmplx::zero();", "count/deflation")
+seed("c10-laguer-drop-early-return", "C10", PM, "            if b.abs() <= err { return; }\n", "", "divisors/laguer")
+seed("c10-dispatch-gap", "C10", PM, "        if degree > 3 {\n            let mut ad", "        if degree > 4 {\n            let mut ad", "dispatch")
+seed("c10-roots-skip-leading", "C10", PM, """        for i in 0..self.coeffs.len() {
+            coeffs[i] = Cmplx::new( self.coeffs[i], 0.0 ); // Convert to Complex<f64>""", """        for i in 0..self.coeffs.len() - 1 {
+            coeffs[i] = Cmplx::new( self.coeffs[i], 0.0 ); // Convert to Complex<f64>""", "entry/f64")
+seed("c10-polish-deflated", "C10", PM, "                Self::laguer( &mut a, &mut poly_roots[j], &mut its );", "                Self::laguer( &mut a, &mut poly_roots[0], &mut its );", "polish")
+seed("c10-deflate-order", "C10", PM, """                    let c = ad[jj];
+                    ad[jj] = b;
+                    b = x * b + c;""", """                    ad[jj] = b;
+                    let c = ad[jj];
+                    b = x * b + c;""", "deflate")
+seed("c10-cubic-quadratic-swapped-helper", "C10", PM, "            poly_roots = Polynomial::quadratic_solve( a, b, c );", "            poly_roots = Polynomial::cubic_solve( Cmplx::zero(), a, b, c );", "count/replace", "cubic helper for degree 2 returns 3 values")
+seed("c10-laguer-unbounded", "C10", PM, "        for iter in 1..MAXIT {\n            *iterations = iter;", "        let mut iter = 0;\n        loop {\n            iter += 1;\n            *iterations = iter;", "termination")
+seed("c10-gp-guard-dropped", "C10", PM, """            let dx = if f64::max( abp, abm ) > 0.0 { 
+                Cmplx::new( m as f64, 0.0 ) / gp
+            } else {
+                Cmplx::polar( 1.0 + abx, iter as f64 )
+            };""", """            let dx = Cmplx::new( m as f64, 0.0 ) / gp;""", "divisors/laguer")
+seed("c10-refine-imag-flag", "C10", PM, "        Polynomial::<Cmplx>::poly_solve( coeffs, refine )\n    }\n}\n\nimpl Polynomial<Cmplx> {", "        Polynomial::<Cmplx>::poly_solve( coeffs, !refine )\n    }\n}\n\nimpl Polynomial<Cmplx> {", "entry/f64")
